@@ -42,7 +42,7 @@ def make_obs(ctx):
         for lem in (1, 2, 3, 4, 5):
             jm = (6 if ctx.tier == 'quick' else 7) if lem in (3, 4) else (2 if ctx.tier == 'quick' else 3)
             obs.append(Ob('days:%s:%s' % (unit[6:].lower(), LEM[lem]), H, 'h_days', {'UNIT': unit, 'LEMMA': lem, 'NMAX': nm if unit == 'DT_DURD' else 8, 'JMAX': jm},
-                          units=UNITS, unwind=jm + 3, unwindset=uws(jm), group='days', timeout=1200 if ctx.tier == 'quick' else 3600, remove_bodies=P(['daisy']),
+                          units=UNITS, unwind=jm + 3, unwindset=uws(jm), group='days', timeout=1200 if ctx.tier == 'quick' else 3600, memgb=7 if lem == 5 else 3, remove_bodies=P(['daisy']),
                           bounds={'FIRST': 'any day number 2000..900000', 'LAST': 'within 1000 days either side', 'state': 'any day within 1100 days of FIRST',
                                   'INC': '-%d..%d %s' % (nm if unit == 'DT_DURD' else 8, nm if unit == 'DT_DURD' else 8, unit[6:].lower()),
                                   'skip': 'any set of weekdays but all seven', 'skip loop / anchored members': '<= %d' % jm}))
